@@ -137,6 +137,14 @@ def build_inputs(case):
     elif meter_kind == "billing":
         mt = [days[0][0], days[30][0], days[-1][1]]
         mv = [300.0, 330.0, np.nan]
+    elif meter_kind == "none":
+        # temperature-only reporting data: no meter at all; the days are the local calendar days of the zone the object is built for
+        if case["entry"] == "from_series":
+            import zoneinfo
+
+            return ("series_none", temp, zoneinfo.ZoneInfo(zone)), days, times, values
+        # frame without a usage column: the feed as it comes (it starts wherever the feed starts - at 18:00 or 19:00 local for a UTC feed)
+        return ("frame", temp.tz_convert(zone).to_frame("temperature")), days, times, values
     else:
         raise ValueError(meter_kind)
     for k in case.get("meter_gaps", []):
@@ -201,6 +209,8 @@ def run_case(case):
     try:
         if inputs[0] == "series":
             data = cls.from_series(inputs[1], inputs[2], is_electricity_data=True)
+        elif inputs[0] == "series_none":
+            data = cls.from_series(None, inputs[1], is_electricity_data=True, tzinfo=inputs[2])
         else:
             data = cls(inputs[1], is_electricity_data=True)
     except Exception as exc:
@@ -339,6 +349,17 @@ def cases(tier):
                     for cls in ("baseline", "reporting"):
                         out.append({"family": "billing", "cls": cls, "entry": entry, "feed": feed, "feed_zone": "same",
                                     "meter": "billing", "zone": z, "window": w, "dst_pos": 2, "runs": []})
+    # ---- temperature-only reporting data (no meter at all): the days are local calendar days whatever instant the feed starts at
+    for z in meter_zones:
+        for w in ("spring", "autumn"):
+            for feed in (60, 30):
+                for fz in ("same", "UTC", "+1h", "-5h") + (("Asia/Kolkata",) if feed == 30 else ()):
+                    for entry in ("from_series", "frame"):
+                        base = {"family": "daily", "cls": "reporting", "entry": entry, "feed": feed, "feed_zone": fz, "meter": "none",
+                                "zone": z, "window": w, "dst_pos": 2}
+                        out.append(dict(base, runs=[]))
+                        if fz in ("same", "UTC") and entry == "from_series" and feed == 60:
+                            add(base, 1, lattice=6)
     # ---- a cold feed with readings of exactly 0 F: undeviated, and with one run ending so that a day sits at its 50 % threshold
     for z in meter_zones[:1]:
         for feed in (60, 30):
